@@ -245,19 +245,20 @@ Section Try.
   Variables tnb tnk : str -> str.
   Variables accb acck : str -> str -> Prop.
   Variables rhb rhk whb whk : fhandle -> str -> nat -> Prop.
+  Variables hid anc : str -> Prop.
   Variable B0 : store.
 
-  Hypothesis HLb : base_laws base Vb Vk tnb accb rhb whb.
+  Hypothesis HLb : base_laws base Vb Vk tnb accb rhb whb hid anc.
   Hypothesis HLk : backup_laws backup Vb Vk tnk acck rhk whk.
   Hypothesis Hlinks : links_ok tnb tnk accb acck B0.
   Hypothesis Hsmall : all_small B0.
   Hypothesis HwfB0 : swf B0.
 
   Lemma HVb_infos : forall w i, Vb (with_infos w i) = Vb w.
-  Proof. exact (law_infos_indep _ _ _ _ _ _ _ HLb). Qed.
+  Proof. exact (law_infos_indep _ _ _ _ _ _ _ _ _ HLb). Qed.
 
   Lemma HVk_infos : forall w i, Vk (with_infos w i) = Vk w.
-  Proof. exact (law_infos_indep _ _ _ _ _ _ _ HLk). Qed.
+  Proof. exact (law_infos_indep _ _ _ _ _ _ _ _ _ HLk). Qed.
 
   (** only traces and tick counters differ *)
   Definition same_all (w w' : world) : Prop :=
@@ -364,8 +365,8 @@ Section Try.
       + rewrite Hlk in Hq by exact Hne. exact (inv_kind _ _ _ _ HI q fi n Hq Hn).
   Qed.
 
-  Let Lb : api_laws base Vb Vk tnb accb rhb whb := HLb.
-  Let Lk : api_laws backup Vk Vb tnk acck rhk whk := HLk.
+  Let Lb : api_laws base Vb Vk tnb accb rhb whb hid anc := HLb.
+  Let Lk : api_laws backup Vk Vb tnk acck rhk whk nohid nohid := HLk.
 
   Lemma swf_root_dir (s : store) : swf s -> sdir s s_root.
   Proof. intros [H _]. exact H. Qed.
@@ -429,7 +430,7 @@ Section Try.
                ext Vb w w' [p] /\ w_infos w' !! p = Some None.
   Proof.
     intros HI Hnlp Hun Hb.
-    destruct (law_lstat_none _ _ _ _ _ _ _ Lb w p (inv_quiet _ _ _ _ HI) (inv_wf_b _ _ _ _ HI) Hnlp Hb)
+    destruct (law_lstat_none _ _ _ _ _ _ _ _ _ Lb w p (inv_quiet _ _ _ _ HI) (inv_wf_b _ _ _ _ HI) Hnlp Hb)
       as (e & w1 & Hrun & Hnf & HV1 & Hsr1).
     pose proof Hsr1 as (HVk1 & Hi1 & Hc1 & Hf1).
     assert (Hun1 : w_infos w1 !! p = None) by (rewrite Hi1; exact Hun).
@@ -467,7 +468,7 @@ Section Try.
                   info_matches fi n.
   Proof.
     intros HI Hnlp Hun Hb.
-    destruct (law_lstat_some _ _ _ _ _ _ _ Lb w p n (inv_quiet _ _ _ _ HI) (inv_wf_b _ _ _ _ HI) Hnlp Hb)
+    destruct (law_lstat_some _ _ _ _ _ _ _ _ _ Lb w p n (inv_quiet _ _ _ _ HI) (inv_wf_b _ _ _ _ HI) Hnlp Hb)
       as (fi & (w1 & Hrun & HV1 & Hsr1) & Him & _).
     exists fi, w1. split; [| split; [apply same_all_base; assumption | exact Him]].
     rewrite (backup_required_unseen w p Hun).
@@ -563,8 +564,8 @@ Section Try.
         { rewrite HVk1. eapply backup_sdirect; eassumption. }
         assert (Hnone1 : Vk w1 !! sub = None).
         { apply untracked_backup_none; assumption. }
-        destruct (copy_dir_spec backup Vk Vb tnk acck rhk whk Lk w1 sub fi
-                    (inv_quiet _ _ _ _ HI1) (inv_wf_k _ _ _ _ HI1) Hdir1 Hne Hk Hu Hg (or_introl Hnone1))
+        destruct (copy_dir_spec backup Vk Vb tnk acck rhk whk nohid nohid Lk w1 sub fi
+                    (inv_quiet _ _ _ _ HI1) (inv_wf_k _ _ _ _ HI1) Hdir1 Hne Hk Hu Hg (or_introl Hnone1) (not_nohid _))
           as (w2 & m' & Hrun2 & (Hsr2 & Hwf2 & Heqv2) & Hk2 & Hmeta).
         pose proof Hsr2 as (HVb2 & Hi2 & Hc2 & Hf2).
         assert (Hun2 : w_infos w2 !! sub = None) by (rewrite Hi2; exact Hun1).
@@ -605,7 +606,7 @@ Section Try.
       { rewrite HVk1. eapply backup_sdirect; eassumption. }
       assert (Hnone1 : Vk w1 !! sub = None).
       { apply untracked_backup_none; assumption. }
-      destruct (law_remove_none _ _ _ _ _ _ _ Lk w1 sub (inv_quiet _ _ _ _ HI1) (inv_wf_k _ _ _ _ HI1)
+      destruct (law_remove_none _ _ _ _ _ _ _ _ _ Lk w1 sub (inv_quiet _ _ _ _ HI1) (inv_wf_k _ _ _ _ HI1)
                   (sdirect_snolinkpar _ _ Hdir1) Hnone1)
         as (e3 & w3 & Hrun3 & _ & HVk3 & Hsr3).
       pose proof (same_all_backup w1 w3 HVk3 Hsr3) as Hsa3.
@@ -831,7 +832,7 @@ Section Try.
   Proof.
     intros HI Hnlp Hun Hb Him Hanc. unfold tb_file.
     (* open the original *)
-    destruct (law_open_file _ _ _ _ _ _ _ Lb w p m c (inv_quiet _ _ _ _ HI) (inv_wf_b _ _ _ _ HI) Hnlp Hb)
+    destruct (law_open_file _ _ _ _ _ _ _ _ _ Lb w p m c (inv_quiet _ _ _ _ HI) (inv_wf_b _ _ _ _ HI) Hnlp Hb)
       as (sf & (w1 & Hrun1 & HVb1 & Hsr1) & Hrh).
     pose proof (same_all_base w w1 HVb1 Hsr1) as Hsa1.
     pose proof (Inv_transfer w w1 HI Hsa1) as HI1.
@@ -848,10 +849,10 @@ Section Try.
     { pose proof (inv_untracked _ _ _ _ HI p Hun) as He. rewrite Hb in He.
       destruct (B0 !! p) as [[m0 | m0 c0 | m0 t0]|] eqn:E0; simpl in He; try contradiction.
       destruct He as [_ <-]. exact (Hsmall p m0 c E0). }
-    destruct (copy_file_spec backup base Vk Vb tnk tnb acck accb rhk rhb whk whb Lk Lb
+    destruct (copy_file_spec backup base Vk Vb tnk tnb acck accb rhk rhb whk whb nohid hid nohid anc Lk Lb
                 w1 p fi sf p m c (inv_quiet _ _ _ _ HI1) (inv_wf_k _ _ _ _ HI1) (inv_wf_b _ _ _ _ HI1)
                 (backup_sdirect w1 p _ HI1 Hun1 Hb1 Hanc1) (proj1 Him) Hu Hg
-                (or_introl (untracked_backup_none w1 p HI1 Hun1 Hne)) Hrh Hb1 Hsm)
+                (or_introl (untracked_backup_none w1 p HI1 Hun1 Hne)) Hrh Hb1 Hsm (not_nohid _))
       as (w2 & m' & Hrun2 & (Hsr2 & Hwf2 & Heqv2) & Hk2 & Hmeta & Hmt).
     pose proof Hsr2 as (HVb2 & Hi2 & Hc2 & Hf2).
     assert (Hun2 : w_infos w2 !! p = None) by (rewrite Hi2; exact Hun1).
@@ -872,7 +873,7 @@ Section Try.
         eapply file_meta_eq; [exact Him | | exact Hmeta | exact Hmt].
         exact (swf_lookup_perm12 _ _ _ (inv_wf_b _ _ _ _ HI) Hb). }
     (* close the original *)
-    destruct (law_hclose_r _ _ _ _ _ _ _ Lb w3 sf p 0%nat (inv_quiet _ _ _ _ HI3) Hrh)
+    destruct (law_hclose_r _ _ _ _ _ _ _ _ _ Lb w3 sf p 0%nat (inv_quiet _ _ _ _ HI3) Hrh)
       as (w4 & Hrun4 & HVb4 & Hsr4).
     pose proof (same_all_base w3 w4 HVb4 Hsr4) as Hsa4.
     exists w4. split; [| split; [exact (Inv_transfer w3 w4 HI3 Hsa4) | split]].
@@ -901,10 +902,10 @@ Section Try.
     destruct (B0 !! p) as [[m0 | m0 c0 | m0 t0]|] eqn:E0; simpl in He; try contradiction.
     destruct He as [Hm0 <-].
     destruct (Hlinks p m0 t E0) as (_ & Htnk & Htne & _ & Hacc & Hperm0).
-    destruct (copy_symlink_spec backup base Vk Vb tnk tnb acck accb rhk rhb whk whb Lk Lb
+    destruct (copy_symlink_spec backup base Vk Vb tnk tnb acck accb rhk rhb whk whb nohid hid nohid anc Lk Lb
                 w p fi m t (inv_quiet _ _ _ _ HI) (inv_wf_k _ _ _ _ HI) (inv_wf_b _ _ _ _ HI) Hnlp Hb
                 (backup_sdirect w p _ HI Hun Hb Hanc) (untracked_backup_none w p HI Hun Hne)
-                (proj1 Him) Hu Hg Htne Hacc)
+                (proj1 Him) Hu Hg Htne Hacc (not_nohid _))
       as (w2 & m' & Hrun2 & (Hsr2 & Hwf2 & Heqv2) & Hk2 & Hperm' & Hu' & Hg').
     pose proof Hsr2 as (HVb2 & Hi2 & Hc2 & Hf2).
     assert (Hun2 : w_infos w2 !! p = None) by (rewrite Hi2; exact Hun).
@@ -1214,7 +1215,7 @@ Section Try.
        (Forall (tracked w2) l /\ call n w2 = (r, w') /\ fr w2 w' l)).
   Proof.
     intros HI Hnlp Hincl Hframe. unfold guarded. pose proof Hnlp as [[Hc _] _].
-    destruct (real_path_resolved_spec base Vb Vk tnb accb rhb whb Lb w n
+    destruct (real_path_resolved_spec base Vb Vk tnb accb rhb whb hid anc Lb w n
                 (inv_quiet _ _ _ _ HI) (inv_wf_b _ _ _ _ HI) Hnlp) as (w1 & Hrun1 & HVb1 & Hsr1).
     pose proof (same_all_base w w1 HVb1 Hsr1) as Hsa1.
     pose proof (Inv_transfer w w1 HI Hsa1) as HI1.
@@ -1297,7 +1298,7 @@ Section Try.
     assert (Hnl2 : snotlink (Vb w2) n) by (rewrite HVb2; exact Hnl).
     pose proof Hfr as (_ & Hwf' & _).
     destruct (framed_fr _ _ _
-                (law_user_handle _ _ _ _ _ _ _ Lb w2 n (MOk h) w' (inv_quiet _ _ _ _ HI2) (inv_wf_b _ _ _ _ HI2)
+                (law_user_handle _ _ _ _ _ _ _ _ _ Lb w2 n (MOk h) w' (inv_quiet _ _ _ _ HI2) (inv_wf_b _ _ _ _ HI2)
                    Hnlp2 Hnl2 (Hwhich w2 (MOk h) w' Hcall) h d eq_refl
                    (fr_quiet w2 w' [n] (inv_quiet _ _ _ _ HI2) Hfr) Hwf'))
       as (r4 & w4 & Hrun4 & Hnh4 & Hfr4).
@@ -1332,10 +1333,10 @@ Section Try.
     quiet w -> swf (Vb w) -> snolinkpar (Vb w) n -> framed Vb Vk (a_lstat base n) w [].
   Proof.
     intros Hq Hwf Hnlp. destruct (Vb w !! n) as [nd|] eqn:Hb.
-    - destruct (law_lstat_some _ _ _ _ _ _ _ Lb w n nd Hq Hwf Hnlp Hb) as (fi & (w1 & Hrun & HV & Hsr) & _).
+    - destruct (law_lstat_some _ _ _ _ _ _ _ _ _ Lb w n nd Hq Hwf Hnlp Hb) as (fi & (w1 & Hrun & HV & Hsr) & _).
       exists (MOk fi), w1. split; [exact Hrun |]. split; [discriminate |]. split; [exact Hsr |].
       rewrite HV. split; [exact Hwf | apply store_eqv_except_refl].
-    - destruct (law_lstat_none _ _ _ _ _ _ _ Lb w n Hq Hwf Hnlp Hb) as (e & w1 & Hrun & _ & HV & Hsr).
+    - destruct (law_lstat_none _ _ _ _ _ _ _ _ _ Lb w n Hq Hwf Hnlp Hb) as (e & w1 & Hrun & _ & HV & Hsr).
       exists (MErr e), w1. split; [exact Hrun |]. split; [discriminate |]. split; [exact Hsr |].
       rewrite HV. split; [exact Hwf | apply store_eqv_except_refl].
   Qed.
@@ -1398,12 +1399,12 @@ Section Try.
   Proof.
     intros HI Hnlo Hnln Hleaf. unfold b_rename.
     pose proof Hnlo as [[Hco _] _]. pose proof Hnln as [[Hcn _] _].
-    destruct (real_path_resolved_spec base Vb Vk tnb accb rhb whb Lb w o
+    destruct (real_path_resolved_spec base Vb Vk tnb accb rhb whb hid anc Lb w o
                 (inv_quiet _ _ _ _ HI) (inv_wf_b _ _ _ _ HI) Hnlo) as (w1 & Hrun1 & HVb1 & Hsr1).
     pose proof (same_all_base w w1 HVb1 Hsr1) as Hsa1.
     pose proof (Inv_transfer w w1 HI Hsa1) as HI1.
     assert (Hnln1 : snolinkpar (Vb w1) n) by (rewrite HVb1; exact Hnln).
-    destruct (real_path_resolved_spec base Vb Vk tnb accb rhb whb Lb w1 n
+    destruct (real_path_resolved_spec base Vb Vk tnb accb rhb whb hid anc Lb w1 n
                 (inv_quiet _ _ _ _ HI1) (inv_wf_b _ _ _ _ HI1) Hnln1) as (w2 & Hrun2 & HVb2 & Hsr2).
     pose proof (same_all_trans w w1 w2 Hsa1 (same_all_base w1 w2 HVb2 Hsr2)) as Hsa2.
     pose proof (Inv_transfer w w2 HI Hsa2) as HI2.
@@ -1438,7 +1439,7 @@ Section Try.
     { constructor; [exact (proj1 (Htr4 eq_refl)) |]. constructor; [| constructor].
       exact (ext_tracked _ _ _ _ _ Hext4 (proj1 (Htr3 eq_refl))). }
     assert (Hfrm : framed Vb Vk (a_rename base o n) w4 [o; n]).
-    { apply (law_user_rename _ _ _ _ _ _ _ Lb w4 o n (inv_quiet _ _ _ _ HI4) (inv_wf_b _ _ _ _ HI4));
+    { apply (law_user_rename _ _ _ _ _ _ _ _ _ Lb w4 o n (inv_quiet _ _ _ _ HI4) (inv_wf_b _ _ _ _ HI4));
         rewrite HVb04; assumption. }
     destruct (framed_fr _ w4 _ Hfrm) as (r5 & w5 & Hrun5 & Hnh5 & Hfr5).
     exists r5, w5. split; [exact Hrun5 |].
@@ -1542,7 +1543,7 @@ Section Try.
     intros HI Hnlp Hne. pose proof Hnlp as [[Hc _] _].
     destruct (guarded_spec (a_remove base) w sub [sub] HI Hnlp (incl_self_cands sub Hc))
       as (r & w' & w2 & Hrun & Hnh & HI2 & Hext & Hi & _ & Hcase).
-    { intros w0 Hq0 Hwf0 HV0. apply (law_user_remove _ _ _ _ _ _ _ Lb w0 sub Hq0 Hwf0); [| exact Hne].
+    { intros w0 Hq0 Hwf0 HV0. apply (law_user_remove _ _ _ _ _ _ _ _ _ Lb w0 sub Hq0 Hwf0); [| exact Hne].
       rewrite HV0. exact Hnlp. }
     exists r, w'. split; [exact Hrun |].
     pose proof Hext as (HVb2 & Hm & Hd).
@@ -1558,9 +1559,14 @@ Section Try.
       pose proof (same_all_base w2 w3 HV3 Hsr3) as Hsa.
       split; [discriminate |]. split; [exact (Inv_transfer w2 w3 HI2 Hsa) |].
       split; [apply Hie; exact (proj1 (proj2 Hsr3)) | apply shrinks_eq; congruence]. }
+    (* a proper ancestor of a hidden location: the Remove fails, nothing changes *)
+    destruct (law_anc_dec _ _ _ _ _ _ _ _ _ Lb sub) as [Hanc | Hnanc].
+    { destruct (law_remove_anc _ _ _ _ _ _ _ _ _ Lb w2 sub Hq2 Hwf2 Hanc)
+        as (e & w3 & Hrun3 & _ & HV3 & Hsr3).
+      exact (Hsame e w3 Hrun3 HV3 Hsr3). }
     destruct (Vb w2 !! sub) as [nd|] eqn:Hb.
     - destruct (no_children_dec (Vb w2) sub) as [Hnc | Hnnc].
-      + destruct (law_remove_leaf _ _ _ _ _ _ _ Lb w2 sub nd Hq2 Hwf2 Hnlp2 Hb Hnc Hne)
+      + destruct (law_remove_leaf _ _ _ _ _ _ _ _ _ Lb w2 sub nd Hq2 Hwf2 Hnlp2 Hb Hnc Hne Hnanc)
           as (s' & (w3 & Hrun3 & HV3 & Hsr3) & Hnone & Heqv' & Hwf').
         rewrite Hcall in Hrun3. injection Hrun3 as Er Ew. subst r w'.
         assert (Hsh : shrinks (Vb w2) (Vb w3)).
@@ -1575,10 +1581,10 @@ Section Try.
           rewrite (eqv_kind _ _ He). exact (inv_kind _ _ _ _ HI2 p fi n2 Hp E2).
         * intros p Hp. rewrite Hi3 in Hp.
           exact (shrinks_snolinkpar _ _ p Hsh (inv_nolink _ _ _ _ HI2 p Hp)).
-      + destruct (law_remove_nonempty _ _ _ _ _ _ _ Lb w2 sub nd Hq2 Hwf2 Hnlp2 Hb Hnnc)
+      + destruct (law_remove_nonempty _ _ _ _ _ _ _ _ _ Lb w2 sub nd Hq2 Hwf2 Hnlp2 Hb Hnnc)
           as (e & w3 & Hrun3 & _ & HV3 & Hsr3).
         exact (Hsame e w3 Hrun3 HV3 Hsr3).
-    - destruct (law_remove_none _ _ _ _ _ _ _ Lb w2 sub Hq2 Hwf2 Hnlp2 Hb)
+    - destruct (law_remove_none _ _ _ _ _ _ _ _ _ Lb w2 sub Hq2 Hwf2 Hnlp2 Hb)
         as (e & w3 & Hrun3 & _ & HV3 & Hsr3).
       exact (Hsame e w3 Hrun3 HV3 Hsr3).
   Qed.
@@ -1702,14 +1708,14 @@ Section Try.
       pose proof (List.Forall_inv Hl0) as [Hnlf Hunf]. pose proof (List.Forall_inv_tail Hl0) as Hrest.
       pose proof (inv_quiet _ _ _ _ HI0) as Hq0. pose proof (inv_wf_b _ _ _ _ HI0) as Hwf0.
       destruct (Vb w0 !! join2 path nm) as [nd|] eqn:Hb.
-      2:{ destruct (law_lstat_none _ _ _ _ _ _ _ Lb w0 _ Hq0 Hwf0 Hnlf Hb) as (e & w1 & Hrun1 & _ & HV1 & Hsr1).
+      2:{ destruct (law_lstat_none _ _ _ _ _ _ _ _ _ Lb w0 _ Hq0 Hwf0 Hnlf Hb) as (e & w1 & Hrun1 & _ & HV1 & Hsr1).
           assert (Hin : (fi <- a_lstat base (join2 path nm) ;;
                          walk_fold fuel base (join2 path nm) fi ra_fn acc0) w0 = (MErr e, w1)).
           { rewrite (bind_err _ _ w0 w1 e Hrun1). reflexivity. }
           rewrite (bind_err _ _ w0 w1 e Hin). exists (MErr e), w1. split; [reflexivity |].
           split; [apply kept_same; [discriminate | exact HI0 | exact (same_all_base w0 w1 HV1 Hsr1)] |].
           intros acc' D. discriminate D. }
-      destruct (law_lstat_some _ _ _ _ _ _ _ Lb w0 _ nd Hq0 Hwf0 Hnlf Hb)
+      destruct (law_lstat_some _ _ _ _ _ _ _ _ _ Lb w0 _ nd Hq0 Hwf0 Hnlf Hb)
         as (fi & (w1 & Hrun1 & HV1 & Hsr1) & Him & _).
       pose proof (same_all_base w0 w1 HV1 Hsr1) as Hsa1.
       pose proof (Inv_transfer w0 w1 HI0 Hsa1) as HI1.
@@ -1763,7 +1769,7 @@ Section Try.
     exists r w', b_removeall base backup n w = (r, w') /\ keeps (below_chain n) w r w'.
   Proof.
     intros HI Hnlp Hnr. rewrite b_removeall_eq. pose proof Hnlp as [[Hc _] _].
-    destruct (real_path_resolved_spec base Vb Vk tnb accb rhb whb Lb w n
+    destruct (real_path_resolved_spec base Vb Vk tnb accb rhb whb hid anc Lb w n
                 (inv_quiet _ _ _ _ HI) (inv_wf_b _ _ _ _ HI) Hnlp) as (w1 & Hrun1 & HVb1 & Hsr1).
     pose proof (same_all_base w w1 HVb1 Hsr1) as Hsa1.
     pose proof (Inv_transfer w w1 HI Hsa1) as HI1.
@@ -1771,7 +1777,7 @@ Section Try.
     rewrite (bind_ok _ _ w w1 n Hrun1).
     destruct (Vb w !! n) as [nd|] eqn:Hb.
     2:{ assert (Hb1 : Vb w1 !! n = None) by (rewrite HVb1; exact Hb).
-        destruct (law_lstat_none _ _ _ _ _ _ _ Lb w1 n (inv_quiet _ _ _ _ HI1) (inv_wf_b _ _ _ _ HI1) Hnlp1 Hb1)
+        destruct (law_lstat_none _ _ _ _ _ _ _ _ _ Lb w1 n (inv_quiet _ _ _ _ HI1) (inv_wf_b _ _ _ _ HI1) Hnlp1 Hb1)
           as (e & w2 & Hrun2 & Hnf & HV2 & Hsr2).
         pose proof (same_all_trans w w1 w2 Hsa1 (same_all_base w1 w2 HV2 Hsr2)) as Hsa2.
         rewrite (bind_ok _ _ w1 w2 (Err e) (try_err _ w1 w2 e Hrun2)).
@@ -1779,7 +1785,7 @@ Section Try.
         exists (MOk tt), w2. split; [reflexivity |].
         apply kept_keeps. apply kept_same; [discriminate | exact HI | exact Hsa2]. }
     assert (Hb1 : Vb w1 !! n = Some nd) by (rewrite HVb1; exact Hb).
-    destruct (law_lstat_some _ _ _ _ _ _ _ Lb w1 n nd (inv_quiet _ _ _ _ HI1) (inv_wf_b _ _ _ _ HI1) Hnlp1 Hb1)
+    destruct (law_lstat_some _ _ _ _ _ _ _ _ _ Lb w1 n nd (inv_quiet _ _ _ _ HI1) (inv_wf_b _ _ _ _ HI1) Hnlp1 Hb1)
       as (fi & (w2 & Hrun2 & HV2 & Hsr2) & Him & _).
     pose proof (same_all_trans w w1 w2 Hsa1 (same_all_base w1 w2 HV2 Hsr2)) as Hsa2.
     pose proof (Inv_transfer w w2 HI Hsa2) as HI2. pose proof Hsa2 as (HVb02 & _).
@@ -1793,7 +1799,7 @@ Section Try.
         apply (kept_same _ w w2 (MOk tt)); [discriminate | exact HI | exact Hsa2]. }
     (* a directory: walk it, then remove the directories deepest first *)
     assert (Hb2 : Vb w2 !! n = Some nd) by (rewrite HVb02; exact Hb).
-    destruct (law_lstat_some _ _ _ _ _ _ _ Lb w2 n nd (inv_quiet _ _ _ _ HI2) (inv_wf_b _ _ _ _ HI2) Hnlp2 Hb2)
+    destruct (law_lstat_some _ _ _ _ _ _ _ _ _ Lb w2 n nd (inv_quiet _ _ _ _ HI2) (inv_wf_b _ _ _ _ HI2) Hnlp2 Hb2)
       as (fi' & (w3 & Hrun3 & HV3 & Hsr3) & Him' & _).
     pose proof (same_all_trans w w2 w3 Hsa2 (same_all_base w2 w3 HV3 Hsr3)) as Hsa3.
     pose proof (Inv_transfer w w3 HI Hsa3) as HI3. pose proof Hsa3 as (HVb03 & _).
@@ -1856,7 +1862,7 @@ Section Try.
     - (* Create *)
       apply (finish_name _ n); [left; reflexivity |]. cbn [step].
       apply (handle_op_spec (a_create base) w n d HI Hn (List.Forall_inv (Hfol eq_refl))).
-      + intros w2 Hq2 Hwf2 HVb2. apply (law_user_create _ _ _ _ _ _ _ Lb w2 n Hq2 Hwf2);
+      + intros w2 Hq2 Hwf2 HVb2. apply (law_user_create _ _ _ _ _ _ _ _ _ Lb w2 n Hq2 Hwf2);
           rewrite HVb2; [exact Hn | exact (List.Forall_inv (Hfol eq_refl))].
       + intros w2 r w' Hcall. right. exact Hcall.
     - (* OpenFile, then write *)
@@ -1864,23 +1870,23 @@ Section Try.
       + apply finish_ro. exact (ro_open_write_spec w n d HI Hn).
       + apply (finish_name _ n); [left; reflexivity |]. cbn [negb] in Hfol.
         apply (handle_op_spec (fun rn => a_openfile base rn fl perm) w n d HI Hn (List.Forall_inv (Hfol eq_refl))).
-        * intros w2 Hq2 Hwf2 HVb2. apply (law_user_openfile _ _ _ _ _ _ _ Lb w2 n fl perm Hq2 Hwf2);
+        * intros w2 Hq2 Hwf2 HVb2. apply (law_user_openfile _ _ _ _ _ _ _ _ _ Lb w2 n fl perm Hq2 Hwf2);
             rewrite HVb2; [exact Hn | exact (List.Forall_inv (Hfol eq_refl))].
         * intros w2 r w' Hcall. left. exists fl, perm. exact Hcall.
     - (* Mkdir *)
       apply (finish_name _ n); [left; reflexivity |].
       apply (unit_op_spec (fun rn => a_mkdir base rn perm) w n [n] HI Hn (incl_self_cands n Hc)).
-      intros w2 Hq2 Hwf2 HVb2. apply (law_user_mkdir _ _ _ _ _ _ _ Lb w2 n perm Hq2 Hwf2).
+      intros w2 Hq2 Hwf2 HVb2. apply (law_user_mkdir _ _ _ _ _ _ _ _ _ Lb w2 n perm Hq2 Hwf2).
       rewrite HVb2. exact Hn.
     - (* MkdirAll: may create every missing directory on the way to the name *)
       apply (finish_name _ n); [left; reflexivity |].
       apply (unit_op_spec (fun rn => a_mkdirall base rn perm) w n (cands n) HI Hn (incl_refl _)).
-      intros w2 Hq2 Hwf2 HVb2. apply (law_user_mkdirall _ _ _ _ _ _ _ Lb w2 n perm Hq2 Hwf2).
+      intros w2 Hq2 Hwf2 HVb2. apply (law_user_mkdirall _ _ _ _ _ _ _ _ _ Lb w2 n perm Hq2 Hwf2).
       rewrite HVb2. exact Hn.
     - (* Remove *)
       apply (finish_name _ n); [left; reflexivity |].
       apply (unit_op_spec (fun rn => a_remove base rn) w n [n] HI Hn (incl_self_cands n Hc)).
-      intros w2 Hq2 Hwf2 HVb2. apply (law_user_remove _ _ _ _ _ _ _ Lb w2 n Hq2 Hwf2); [| exact Hrm].
+      intros w2 Hq2 Hwf2 HVb2. apply (law_user_remove _ _ _ _ _ _ _ _ _ Lb w2 n Hq2 Hwf2); [| exact Hrm].
       rewrite HVb2. exact Hn.
     - (* RemoveAll *)
       cbn [step].
@@ -1901,27 +1907,27 @@ Section Try.
     - (* Symlink *)
       apply (finish_name _ n); [left; reflexivity |].
       apply (unit_op_spec (fun rn => a_symlink base t rn) w n [n] HI Hn (incl_self_cands n Hc)).
-      intros w2 Hq2 Hwf2 HVb2. apply (law_user_symlink _ _ _ _ _ _ _ Lb w2 t n Hq2 Hwf2).
+      intros w2 Hq2 Hwf2 HVb2. apply (law_user_symlink _ _ _ _ _ _ _ _ _ Lb w2 t n Hq2 Hwf2).
       rewrite HVb2. exact Hn.
     - (* Chmod *)
       apply (finish_name _ n); [left; reflexivity |].
       apply (unit_op_spec (fun rn => a_chmod base rn m) w n [n] HI Hn (incl_self_cands n Hc)).
-      intros w2 Hq2 Hwf2 HVb2. apply (law_user_chmod _ _ _ _ _ _ _ Lb w2 n m Hq2 Hwf2);
+      intros w2 Hq2 Hwf2 HVb2. apply (law_user_chmod _ _ _ _ _ _ _ _ _ Lb w2 n m Hq2 Hwf2);
         rewrite HVb2; [exact Hn | exact (List.Forall_inv (Hfol eq_refl))].
     - (* Chown *)
       apply (finish_name _ n); [left; reflexivity |].
       apply (unit_op_spec (fun rn => a_chown base rn u g) w n [n] HI Hn (incl_self_cands n Hc)).
-      intros w2 Hq2 Hwf2 HVb2. apply (law_user_chown _ _ _ _ _ _ _ Lb w2 n u g Hq2 Hwf2);
+      intros w2 Hq2 Hwf2 HVb2. apply (law_user_chown _ _ _ _ _ _ _ _ _ Lb w2 n u g Hq2 Hwf2);
         rewrite HVb2; [exact Hn | exact (List.Forall_inv (Hfol eq_refl))].
     - (* Lchown *)
       apply (finish_name _ n); [left; reflexivity |].
       apply (unit_op_spec (fun rn => a_lchown base rn u g) w n [n] HI Hn (incl_self_cands n Hc)).
-      intros w2 Hq2 Hwf2 HVb2. apply (law_user_lchown _ _ _ _ _ _ _ Lb w2 n u g Hq2 Hwf2).
+      intros w2 Hq2 Hwf2 HVb2. apply (law_user_lchown _ _ _ _ _ _ _ _ _ Lb w2 n u g Hq2 Hwf2).
       rewrite HVb2. exact Hn.
     - (* Chtimes *)
       apply (finish_name _ n); [left; reflexivity |].
       apply (unit_op_spec (fun rn => a_chtimes base rn (Preset t)) w n [n] HI Hn (incl_self_cands n Hc)).
-      intros w2 Hq2 Hwf2 HVb2. apply (law_user_chtimes _ _ _ _ _ _ _ Lb w2 n (Preset t) Hq2 Hwf2);
+      intros w2 Hq2 Hwf2 HVb2. apply (law_user_chtimes _ _ _ _ _ _ _ _ _ Lb w2 n (Preset t) Hq2 Hwf2);
         rewrite HVb2; [exact Hn | exact (List.Forall_inv (Hfol eq_refl))].
     - (* Stat *)
       apply finish_ro. cbn [step]. unfold b_stat.
@@ -1956,12 +1962,12 @@ End Try.
 (** * The theorems, as stated in Spec/CopySpecs.v *)
 
 Theorem try_backup_spec :
-  forall base backup Vb Vk tnb tnk accb acck rhb rhk whb whk B0,
-  try_backup_stmt base backup Vb Vk tnb tnk accb acck rhb rhk whb whk B0.
+  forall base backup Vb Vk tnb tnk accb acck rhb rhk whb whk hid anc B0,
+  try_backup_stmt base backup Vb Vk tnb tnk accb acck rhb rhk whb whk hid anc B0.
 Proof.
-  intros base backup Vb Vk tnb tnk accb acck rhb rhk whb whk B0.
+  intros base backup Vb Vk tnb tnk accb acck rhb rhk whb whk hid anc B0.
   unfold try_backup_stmt. cbv zeta. intros HLb HLk Hlinks Hsmall HwfB0 w p HI Hnlp.
-  destruct (try_backup_specS base backup Vb Vk tnb tnk accb acck rhb rhk whb whk B0
+  destruct (try_backup_specS base backup Vb Vk tnb tnk accb acck rhb rhk whb whk hid anc B0
               HLb HLk Hlinks Hsmall HwfB0 w p HI Hnlp)
     as (r & w' & Hrun & Hnh & HI' & (HVb & Hm & Hd) & Htr & _).
   exists r, w'. split; [exact Hrun |]. split; [exact Hnh |]. split; [exact HI' |].
@@ -1969,12 +1975,12 @@ Proof.
 Qed.
 
 Theorem step_spec :
-  forall base backup Vb Vk tnb tnk accb acck rhb rhk whb whk B0,
-  step_stmt base backup Vb Vk tnb tnk accb acck rhb rhk whb whk B0.
+  forall base backup Vb Vk tnb tnk accb acck rhb rhk whb whk hid anc B0,
+  step_stmt base backup Vb Vk tnb tnk accb acck rhb rhk whb whk hid anc B0.
 Proof.
-  intros base backup Vb Vk tnb tnk accb acck rhb rhk whb whk B0.
+  intros base backup Vb Vk tnb tnk accb acck rhb rhk whb whk hid anc B0.
   unfold step_stmt. cbv zeta. intros HLb HLb2 HLk Hlinks Hsmall HwfB0 o w HI Hcov.
-  destruct (step_specS base backup Vb Vk tnb tnk accb acck rhb rhk whb whk B0
+  destruct (step_specS base backup Vb Vk tnb tnk accb acck rhb rhk whb whk hid anc B0
               HLb HLk Hlinks Hsmall HwfB0 HLb2 o w HI Hcov)
     as (r & w' & Hrun & Hnh & Hinv & Hext).
   exists r, w'. split; [exact Hrun |]. split; [exact Hnh |]. split; [exact Hinv | exact Hext].
